@@ -266,6 +266,11 @@ func litOf(v Value) (string, bool) {
 	if s, ok := v.(StrV); ok && s.Lit != nil {
 		return *s.Lit, true
 	}
+	if s, ok := v.(StrV); ok && s.T != nil && s.T.IsConst() {
+		if l, ok := Lits.byCode[s.T.ival.Int64()]; ok {
+			return l, true
+		}
+	}
 	return "", false
 }
 
